@@ -278,6 +278,10 @@ func (doc *Document) nonIndividuals() Nodes {
 
 func (doc *Document) SetNodes(nodes Nodes) {
 	doc.nodes = nodes
+
+	// NodeByPointer and Families must reflect the new nodes.
+	doc.buildPointerCache()
+	doc.families = nil
 }
 
 func individuals(doc *Document) IndividualNodes {
@@ -334,6 +338,10 @@ func (doc *Document) AddFamilyWithHusbandAndWife(pointer string, husband, wife *
 
 func (doc *Document) DeleteNode(node Node) (didDelete bool) {
 	doc.nodes, didDelete = doc.nodes.deleteNode(node)
+
+	// The node must also disappear from NodeByPointer and Families.
+	doc.buildPointerCache()
+	doc.families = nil
 
 	return
 }
